@@ -146,9 +146,14 @@ EndStep(e) ==
       thr == {e.threads[i] : i \in 1..Len(e.threads)}
       unfinished == thr \ fin
       blocked == {t \in unfinished : Get(lk.pend, t, "") # ""}
+      \* a thread that sits on a guard (shared or exclusive) while nothing moves is part of the explanation too: it is
+      \* inside a library call that waits for something else than this lock (another lock the library took in the
+      \* opposite order on another path, for instance) while others wait for the guard it holds
+      holding == {t \in unfinished : Get(lk.held, t, 0) > 0 \/ lk.writer = t}
   IN
   /\ (IF ~e.stalled THEN TRUE
       ELSE IF unfinished # {} /\ blocked = unfinished THEN Fail("C14", "deadlock", e)
+      ELSE IF unfinished # {} /\ blocked # {} /\ blocked \cup holding = unfinished THEN Fail("C14", "deadlock-through-another-lock", e)
       ELSE Note("stall-unexplained", e))
   /\ UNCHANGED <<lk, lin, quiet>>
 
